@@ -107,6 +107,41 @@ func checkNoSecondNumberText(p *Prog, l *Ledger, rule string) {
 func checkTextSites(p *Prog, l *Ledger) {
 	rule := "C15/S2-text-function"
 	roots := []string{"interpreter.stringify", "interpreter.stringifyOperand", "interpreter.handleAddition"}
+	if p.Func("interpreter.handleAddition") == nil {
+		// the text arm of `+` under another name or shape (a method of an operand-pair type, say): the function that
+		// evaluateBinary reaches and that itself asks stringifyOperand for the text of an operand
+		if evb, so := p.Func("interpreter.evaluateBinary"), p.Func("interpreter.stringifyOperand"); evb != nil && so != nil {
+			var found []string
+			visited := map[*ssa.Function]bool{}
+			var walk func(fn *ssa.Function)
+			walk = func(fn *ssa.Function) {
+				if fn == nil || visited[fn] || fn.Blocks == nil || fnPkgName(fn) != "interpreter" {
+					return
+				}
+				visited[fn] = true
+				calls := false
+				instrsOf(fn, func(in ssa.Instruction) {
+					if c, ok := in.(ssa.CallInstruction); ok {
+						if sc := c.Common().StaticCallee(); sc != nil {
+							if sc == so {
+								calls = true
+							} else {
+								walk(sc)
+							}
+						}
+					}
+				})
+				if calls && fn != evb {
+					found = append(found, p.FuncKey(fn))
+				}
+			}
+			walk(evb)
+			if len(found) > 0 {
+				sort.Strings(found)
+				roots = append(roots[:2], found...)
+			}
+		}
+	}
 	seen := map[*ssa.Function]bool{}
 	var fns []*ssa.Function
 	var add func(fn *ssa.Function)
